@@ -598,3 +598,17 @@ func (in *Interp) AddObligation(ob *Obligation) {
 }
 
 var _ = token.ADD
+
+// GlobalValue returns the value of a package-level variable after package
+// initialisation (from the base heap).
+func (in *Interp) GlobalValue(pkgPath, name string) (Value, error) {
+	p, ok := in.Pkgs[pkgPath]
+	if !ok {
+		return nil, fmt.Errorf("package %s not loaded", pkgPath)
+	}
+	g, ok := p.Members[name].(*ssa.Global)
+	if !ok {
+		return nil, fmt.Errorf("no package-level variable %s in %s", name, pkgPath)
+	}
+	return in.BaseHeap[in.globals[g]], nil
+}
